@@ -270,7 +270,7 @@ SIGN_FUNCS = ('round2::sign / compute_signature_share / SignatureShare::verify /
               'derive_interpolating_value / compute_lagrange_coefficient / compute_group_commitment / aggregate / aggregate_custom / detect_cheater / '
               'verify_signature_share / verify_signature_share_precomputed / VerifyingKey::verify / verify_prehashed / challenge and the default hook bodies')
 SIGN_ASSUMED = ('Assumed: the multiscalar multiplication result inside compute_group_commitment (outlined call, requires equal lengths -- proved; body Kani-backed, bounded), '
-                'BTreeMap::from([(k, v)]) is the one-entry map, the outlined `keys().cloned().collect()` idiom, T7 identifier order, default world (hooks not overridden; the '
+                'BTreeMap::from([(k, v)]) is the one-entry map, the outlined `keys().cloned().collect()` idiom, T7 identifier order (Identifier::cmp is the numeric order: assumed in Verus, checked by the complete Kani harnesses ident_ord_wide32 / ident_ord_toy251 for all pairs of 32-byte scalars), default world (hooks not overridden; the '
                 'Taproot suite is decided in its own unit: C18).')
 prop('C01',
      kani=True,
